@@ -10,7 +10,8 @@
                                   a caller observes;
              Model/C03Instance.v  `obs_of_class`, the guard `finding_class` (0 = not a listed finding site). *)
 From JV Require Import Lib.Base Model.C03ExnFlow Spec.C03ChannelSpec Gen.C03ExnIR Model.C03Instance
-                       Proofs.C03ExnFlowProofs Proofs.C03ChannelProofs.
+                       Proofs.C03ExnFlowProofs Proofs.C03ChannelProofs
+                       Model.C03Cycle Spec.C03CycleSpec Gen.C03Cycle Proofs.C03CycleProofs Corr.C03Judge.
 Open Scope N_scope.
 
 (* 1. Soundness of the escape analysis, for ALL IR programs, all summary tables that pass the executable
@@ -158,3 +159,47 @@ Print Assumptions C03_cwd_deleted_refuted.
 Theorem C03_any_class_spec_init_args_not_mapping_refuted : finding_status 29 wit_finding_29.
 Proof. exact finding_29_status. Qed.
 Print Assumptions C03_any_class_spec_init_args_not_mapping_refuted.
+Theorem C03_yaml_alias_cycle_through_pairs_refuted : finding_status 30 wit_finding_30.
+Proof. exact finding_30_status. Qed.
+Print Assumptions C03_yaml_alias_cycle_through_pairs_refuted.
+
+(* 5. The cycle check of yaml_load (Model/C03Cycle.has_cycle renders _loaders_dumpers._has_reference_cycle; the flag
+      cyc_tuples — are tuples descended — is regenerated from its source).  For ALL heaps (loaded values with sharing and
+      cycles), roots and fuels: a value the check ACCEPTS can be walked through mappings, lists and tuples to any depth
+      without re-entering a node — every recursive walk of the parse path over it is at most |heap| levels deep — provided
+      the check descends tuples or the value holds none (cyc_guard, the same function the judge uses as the guard).
+      This is what keeps a self-referential alias from surfacing as RecursionError instead of the channel. *)
+Theorem C03_cycle_check_sound :
+  forall (h : heap) (root fuel : nat),
+    cyc_guard h = true ->
+    has_cycle cyc_tuples fuel h [] root = Some false ->
+    forall n, walks_ok n h [] root = true.
+Proof. exact (cycle_check_sound cyc_tuples). Qed.
+Print Assumptions C03_cycle_check_sound.
+
+(* the same against the judge's spec: whatever answer the check gives inside the guard satisfies cycle_check_ok *)
+Theorem C03_cycle_check_meets_spec :
+  forall (h : heap) (root fuel : nat) (rejected : bool),
+    cyc_guard h = true ->
+    has_cycle cyc_tuples fuel h [] root = Some rejected ->
+    cycle_check_ok h root rejected = true.
+Proof. exact (cycle_check_spec cyc_tuples). Qed.
+Print Assumptions C03_cycle_check_meets_spec.
+
+(* hypotheses satisfiable: a value with sharing but no cycle is accepted inside the guard; a self-referential list is refused *)
+Example C03_cycle_check_accepts_sharing : has_cycle false 5 shared_heap [] 0 = Some false /\ tuple_free shared_heap = true.
+Proof. exact shared_accepted. Qed.
+Print Assumptions C03_cycle_check_accepts_sharing.
+Example C03_cycle_check_refuses_selfref : has_cycle false 5 selfref_heap [] 0 = Some true.
+Proof. exact selfref_refused. Qed.
+Print Assumptions C03_cycle_check_refuses_selfref.
+
+(* finding yaml-alias-cycle-through-pairs, outside the guard: a check that does not descend tuples accepts the value of
+   `&x !!pairs [k: *x]` (a list holding a tuple holding the list), which is not walkable; a check that does refuses it *)
+Theorem C03_cycle_check_pairs_refuted :
+  has_cycle false 5 pairs_heap [] 0 = Some false /\ cycle_check_ok pairs_heap 0 false = false.
+Proof. exact pairs_accepted_not_walkable. Qed.
+Print Assumptions C03_cycle_check_pairs_refuted.
+Example C03_cycle_check_pairs_refused_when_tuples_descended : has_cycle true 5 pairs_heap [] 0 = Some true.
+Proof. exact pairs_rejected_when_tuples_descended. Qed.
+Print Assumptions C03_cycle_check_pairs_refused_when_tuples_descended.
